@@ -106,6 +106,7 @@ class Interp:
         self.task_index = {}
         self.task_by_label = {}
         self.nested_unfinished = set()
+        self.put_count = 0
         self.pending_awaits = {}
         self.scope_insts = 0
         self.scope_inst_of = {}
@@ -379,11 +380,13 @@ class Interp:
         elif h == 'avail':
             self.emit(label, 'avail', [s[1], 1 if self.locks[s[1]].available else 0])
         elif h == 'qput':
-            self.emit(label, 'putreq', [s[1], s[2]])
+            item = s[2] * 1000 + self.put_count      # unique item values
+            self.put_count += 1
+            self.emit(label, 'putreq', [s[1], item])
             try:
-                await self.queues[s[1]].put(s[2])
+                await self.queues[s[1]].put(item)
             except self.usim.StreamClosed:
-                self.emit(label, 'putrej', [s[1], s[2]])
+                self.emit(label, 'putrej', [s[1], item])
                 raise
         elif h == 'qget':
             self.emit(label, 'getreq', [s[1]])
@@ -401,11 +404,13 @@ class Interp:
                     if n >= s[2]:
                         break
         elif h == 'cput':
-            self.emit(label, 'cputreq', [s[1], s[2]])
+            item = s[2] * 1000 + self.put_count
+            self.put_count += 1
+            self.emit(label, 'cputreq', [s[1], item])
             try:
-                await self.chans[s[1]].put(s[2])
+                await self.chans[s[1]].put(item)
             except self.usim.StreamClosed:
-                self.emit(label, 'cputrej', [s[1], s[2]])
+                self.emit(label, 'cputrej', [s[1], item])
                 raise
         elif h == 'cget':
             self.emit(label, 'csub', [s[1], 0])
